@@ -98,17 +98,64 @@ def fresh_key(ref):
     return None
 
 
+class Frozen:
+    """Entry heap of a function whose container frame is EMPTY, and the syntactic test "this reference term denotes an
+    object that existed at entry": the reference of a parameter, or of a value read out of the ENTRY heap (entry
+    container arrays, `fld0_*` attribute arrays) at such a reference.  A container read at such a reference is served
+    from the entry arrays whatever has been stored or havocked since.
+
+    Soundness: the frame obligations of the function (checked) forbid writes to containers that existed at entry, so for
+    every reference r < alloc-at-entry the current and the entry contents agree; references stored in the entry heap
+    are below alloc-at-entry (closedness).  Ill-typed access paths (`ref` of a non-reference, a dead list cell) denote
+    values no real state determines, so they may be chosen to satisfy the same equations."""
+
+    def __init__(self, entry, base_refs):
+        self.entry = entry
+        self.base = set(base_refs)
+        self.ids = {a.get_id(): k for k, a in entry.items() if k in ("lelem", "dkeys", "dval")}     # entry keeps them alive
+        self.memo = {}
+
+    def is_old(self, ref):
+        key = ref.get_id()
+        hit = self.memo.get(key)
+        if hit is None:
+            # the term is kept with the verdict: z3 reuses the ids of freed terms
+            hit = self.memo[key] = (ref, self._is_old(z3.simplify(ref)))
+        return hit[1]
+
+    def _is_old(self, ref):
+        if z3.is_const(ref):
+            return str(ref) in self.base
+        if not (z3.is_app(ref) and ref.decl().name() == "ref" and ref.num_args() == 1):
+            return False
+        v = ref.arg(0)
+        if z3.is_const(v):
+            return str(ref) in self.base or str(z3.simplify(ref)) in self.base
+        if not z3.is_select(v):
+            return False
+        a, idx = v.arg(0), v.arg(1)
+        if z3.is_const(a) and a.decl().name().startswith("fld0_") and not a.decl().name().startswith("fld0_$"):
+            return idx.sort() == I and self.is_old(idx)
+        if z3.is_select(a) and a.arg(0).get_id() in self.ids:
+            return self.is_old(a.arg(1))
+        return False
+
+
 class Heap:
     """`known` is a purely syntactic overlay: (kind, fresh_key(ref)) -> the term Select(arr[kind], ref)
     denotes.  It keeps freshly built objects concrete although z3's simplifier cannot decide
     alloc+1 != alloc inside nested stores."""
-    __slots__ = ("alloc", "arr", "fld", "known")
+    __slots__ = ("alloc", "arr", "fld", "known", "frozen")
 
-    def __init__(self, alloc, arr, fld, known=None):
+    def __init__(self, alloc, arr, fld, known=None, frozen=None):
         self.alloc = alloc
         self.arr = arr          # dict kind -> z3 array
         self.fld = fld          # dict field name -> z3 array
         self.known = known if known is not None else {}
+        # (entry arrays, {printed reference terms}) — container parameters of a function whose frame is EMPTY: their
+        # contents are read from the entry heap whatever was stored elsewhere since (sound: the frame obligations of the
+        # function forbid any write to an object that existed at entry)
+        self.frozen = frozen
 
     @staticmethod
     def symbolic(tag="h") -> "Heap":
@@ -116,9 +163,11 @@ class Heap:
                     {k: fresh(f"{tag}_{k}", s) for k, s in ARR_KINDS.items()}, {})
 
     def copy(self) -> "Heap":
-        return Heap(self.alloc, dict(self.arr), dict(self.fld), dict(self.known))
+        return Heap(self.alloc, dict(self.arr), dict(self.fld), dict(self.known), self.frozen)
 
     def _get(self, kind, ref):
+        if self.frozen is not None and not kind.startswith("fld:") and self.frozen.is_old(ref):
+            return z3.Select(self.frozen.entry[kind], ref)
         k = fresh_key(ref)
         if k is not None and (kind, k) in self.known:
             return self.known[(kind, k)]
@@ -251,6 +300,7 @@ class Heap:
             h.fld[f] = fresh(f"{tag}_fld_{f}", FieldSort)
         gone = set(kinds) | {"fld:" + f for f in fields}
         h.known = {key: v for key, v in self.known.items() if key[0] not in gone}
+        h.frozen = self.frozen
         h.alloc = fresh(f"{tag}_alloc", I)
         return h
 
